@@ -680,7 +680,12 @@ class ODataParser(Parser):
         """
         exploded = self._explode_attr(attr)
         leaf_attr = exploded.pop()
-        owner: Union[ast.Identifier, ast.Attribute] = ast.Identifier(exploded.pop(0))
+        # Keep the root identifier itself, so its namespace is not lost:
+        root: ast._Node = attr.owner
+        while isinstance(root, ast.Attribute):
+            root = root.owner
+        exploded.pop(0)
+        owner: Union[ast._Node, ast.Attribute] = root
         for inter in exploded:
             owner = ast.Attribute(owner, inter)
 
